@@ -44,7 +44,7 @@ S := L: S | L: for (;;) { S J } | M: { S J } | switch ( E ) { case _ E : S defau
 S := try { S } catch ( e ) { S } | try { S } finally { S } | try { S } catch { S } finally { S } | try { S } catch ({ message }) { S }
 S := throw _ E ; | return _ E ; | return ; | with ( E ) S | function _ h ( v ) { S } | class _ C { m ( ) { S } } | class _ D extends _ K { constructor(){ S } } | debugger ; | yield _ E ; | await _ E ; | { let _ w = E ; function _ w2 ( ) { return _ w } S }
 J := break ; | continue ; | break _ L ; | continue _ L ; | break _ M ; | return ; | throw 1 ;
-E := 0 | 1 | x | lx | w | o | a | f() | (()=> w ) | ( E , E ) | ( E && E ) | A = E | A ++ | typeof _ E | gen() | new.target | super.m() | this
+E := 0 | 1 | x | lx | w | o | a | f() | (()=> w ) | ( E , E ) | ( E && E ) | A = E | A ++ | typeof _ E | gen() | new.target | super.m() | this | eval("1") | [ E ] | lg()
 A := x | w | c | o.p | [ x ] | { p : x } | lx | e
 `
 
